@@ -8,6 +8,9 @@
      fromext xEXT               -> (ok xSCRIPT xLANG) | err
      slenc ITEMS                -> (ok xBYTES ASG) | (ok xBYTES err) | panic | err
      slread xBYTES              -> (ok ASG) | err | panic
+     plain xTAG special xLANG xSCRIPT   -> (xSCRIPT xLANG)     bcp47ToOtf on a tag without x extension, given
+                                           what x/text says of it (0 | 1 zh | 2 zh-Hans | 3 zh-Hant, Raw language, Script)
+     slplain PITEMS             -> (ok xBYTES) | panic | err    PITEMS = ((xTAG special xLANG xSCRIPT required (optional ...)) ...)
    TABLE = nil | (FIELDS EXTRA); FIELDS = ((fieldIndex RUNES) ...) non-empty fields only;
    EXTRA = nil | ((id RUNES) ...) ascending; RUNES = (r ...) possibly with (rep n r);
    MAC, WIN = ((xTAG TABLE) ...); ITEMS, ASG = ((xSCRIPT xLANG required (optional ...)) ...) *)
@@ -114,4 +117,17 @@ let () = main_loop (fun c ->
        | Err -> A "err" | Panic -> A "panic" | OutOfFuel -> A "fuel")
   | [A "slread"; b] ->
       out_of (fun asg -> L [A "ok"; sx_of_asg (canon_asg asg)]) (m_sl_info_read xtext_strict (sx_bytes b))
+  | [A "plain"; _; sp; la; sc] ->
+      let (s2, l2) = m_plain_tag gtab_langBcp47 gtab_scriptBcp47
+          { pt_special = sx_n sp; pt_lang = sx_bytes la; pt_script = sx_bytes sc } in
+      L [A (hex_of_bytes s2); A (hex_of_bytes l2)]
+  | [A "slplain"; items] ->
+      let info = List.map (fun it -> match it with
+          | L [_; sp; la; sc; req; opts] ->
+              (PTag { pt_special = sx_n sp; pt_lang = sx_bytes la; pt_script = sx_bytes sc },
+               (sx_n req, List.map sx_n (lst opts)))
+          | _ -> failwith "bad item") (lst items) in
+      (match m_sl_info_encode_g gtab_langBcp47 gtab_scriptBcp47 info with
+       | Ok b -> L [A "ok"; A (hex_of_bytes b)]
+       | Err -> A "err" | Panic -> A "panic" | OutOfFuel -> A "fuel")
   | _ -> failwith "bad case")
